@@ -58,18 +58,27 @@ def kind(p):
     return "rf" if g >= 0 and g % 2 == 0 else "md" if g >= 0 else "prop" if g in (-1, -2) else "other"
 
 
+FLAGS = [(True, True), (True, False), (False, True)]       # (include_drf, include_dmd), at least one
+
+
+def selected(flags, p):
+    """is p of a selected kind: RF data and drf_properties with include_drf, metadata and dmd_properties with include_dmd"""
+    g = p[0]
+    if g >= 0:
+        return flags[0] if g % 2 == 0 else flags[1]
+    return flags[0] if g == -1 else flags[1] if g == -2 else False
+
+
 # ----------------------------------------------------------------------------- implementation side
 
 def scratch_pair(cross):
     """(src top, dest top); cross=True puts them on different file systems when possible"""
     base = common.scratch_dir("drfc17-")
     if cross and os.path.isdir("/dev/shm") and os.access("/dev/shm", os.W_OK):
-        old = tempfile.tempdir
-        try:
-            tempfile.tempdir = "/dev/shm"
-            other = common.scratch_dir("drfc17-")
-        finally:
-            tempfile.tempdir = old
+        import atexit
+        other = tempfile.mkdtemp(prefix="drfc17-", dir="/dev/shm")      # auto-removed, like common.scratch_dir
+        atexit.register(shutil.rmtree, other, True)
+        _SHM.append(other)
         if os.stat(other).st_dev != os.stat(base).st_dev:
             return os.path.join(other, "src"), os.path.join(base, "dest")
     return os.path.join(base, "src"), os.path.join(base, "dest")
@@ -102,7 +111,8 @@ class Impl:
         self.snap_cb = None
         self.log = []
 
-    def reset(self, meth):
+    def reset(self, meth, flags=(True, True)):
+        self.flags = tuple(flags)
         for top in (self.src, self.dest):
             shutil.rmtree(top, ignore_errors=True)
             os.makedirs(top)
@@ -110,7 +120,7 @@ class Impl:
         orig = cls._init_observer
         cls._init_observer = lambda _self: None          # never create or start observer threads
         try:
-            self.mirror = cls(self.src, self.dest, method=METH[meth])
+            self.mirror = cls(self.src, self.dest, method=METH[meth], include_drf=flags[0], include_dmd=flags[1])
         finally:
             cls._init_observer = orig
         self.meth = meth
@@ -169,6 +179,37 @@ class Impl:
 
     def dispatch(self, ev):
         """one event to every handler in event_handlers order; returns exception text or None"""
+        def go():
+            for hd in self.mirror.event_handlers:
+                hd.dispatch(ev)
+        return self.traced(go)
+
+    def replay_existing(self):
+        """DigitalRFMirror.start() with the observer stubbed out: the real start-up replay of the files
+        already in the source.  Returns (exception text or None, the replayed paths in order)."""
+        class _NoObserver(object):
+            def start(self):
+                pass
+        self.mirror.observer = _NoObserver()
+        h0 = self.mirror.event_handlers[0]
+        orig = h0.dispatch
+        seen = []
+
+        def logging_dispatch(ev, **kw):
+            seen.append(ev.src_path)
+            return orig(ev, **kw)
+        h0.dispatch = logging_dispatch
+        try:
+            exc = self.traced(self.mirror.start)
+        finally:
+            del h0.dispatch
+        out = []
+        for pth in seen:
+            r = os.path.relpath(pth, self.src)
+            out.append(self.relmap.get(r, r))
+        return exc, out
+
+    def traced(self, fn):
         self.log = []
         real, fake = self._patched()
         os.rename, os.link, os.unlink, os.remove = fake["rename"], fake["link"], fake["unlink"], fake["remove"]
@@ -178,8 +219,7 @@ class Impl:
         so = sys.stdout
         sys.stdout = devnull
         try:
-            for hd in self.mirror.event_handlers:
-                hd.dispatch(ev)
+            fn()
         except Exception as e:  # noqa
             return "%s: %s" % (type(e).__name__, e)
         finally:
@@ -293,8 +333,8 @@ def enc_event(e):
     raise ValueError(k)
 
 
-def enc_history(meth, same_fs, evs):
-    out = [1, meth, int(same_fs), int(same_fs)]
+def enc_history(meth, same_fs, evs, flags=(True, True)):
+    out = [1, meth, int(same_fs), int(same_fs), int(flags[0]), int(flags[1])]
     for e in evs:
         out += enc_event(e)
     return out
@@ -338,8 +378,8 @@ def parse_dump(flat, n):
 class Oracle:
     """accumulates what the harness wrote, checks snapshots and the final state"""
 
-    def __init__(self, impl, meth):
-        self.impl, self.meth = impl, meth
+    def __init__(self, impl, meth, flags=(True, True)):
+        self.impl, self.meth, self.flags = impl, meth, tuple(flags)
         self.versions = {}        # rel -> set of byte strings ever written
         self.last = {}            # rel -> last written bytes
         self.rf_written = {}      # rel -> bytes   (RF data, written once)
@@ -364,11 +404,15 @@ class Oracle:
             base = os.path.basename(r)
             if base.startswith("tmp."):
                 continue
-            if data not in self.versions.get(r, ()):
+            t = self.impl.relmap.get(r)
+            if t is not None and kind(t) != "other" and not selected(self.flags, t):
+                self.add("deselected-kind-mirrored", "a file of a kind that is not selected (include_drf / include_dmd) "
+                         "appears under the destination", "nothing of a deselected kind", {"when": tag, "file": r})
+            elif data not in self.versions.get(r, ()):
                 self.add("partial-file-under-final-name", "a destination file is visible under its final name "
                                   "with content the source never had (incomplete or corrupt)", "one of the written versions",
                                   {"when": tag, "file": r, "size": len(data)})
-        if self.meth == 1:
+        if self.meth == 1 and self.flags[0]:
             src = read_tree(self.impl.src)
             for r, b in self.rf_written.items():
                 if r in self.env_removed:
@@ -393,6 +437,14 @@ class Oracle:
             kd = kind(p)
             if kd == "other" or r in self.env_removed:
                 continue
+            if not selected(self.flags, p):
+                # a deselected kind: never mirrored (checked on every snapshot and here), never touched
+                if r in dst:
+                    self.add("deselected-kind-mirrored", "a file of a kind that is not selected (include_drf / include_dmd) "
+                             "appears under the destination", "nothing of a deselected kind", {"when": "final", "file": r})
+                if src.get(r) != b:
+                    self.add("source-changed", "the mirror changed or removed a source file of a deselected kind", None, r)
+                continue
             if self.meth == 1 and kd == "rf":
                 if dst.get(r) != b:
                     self.add("move-data-file-not-at-destination", "move mode: a reported data file is not intact at "
@@ -402,8 +454,8 @@ class Oracle:
                 continue
             if r in src:
                 if dst.get(r) != src[r]:
-                    self.add("mirror-content-differs", "a finalized source file is missing or different at the "
-                                      "destination", "identical content", r)
+                    self.add("mirror-content-differs", "a finalized source file of a selected kind is missing or "
+                                      "different at the destination", "identical content", r)
                 if self.meth == 1 and kd in ("prop",) and src[r] != b:
                     self.add("source-changed", "the mirror changed a source file", None, r)
             elif r in ring_deleted:
@@ -413,7 +465,7 @@ class Oracle:
                                       "move mode: a metadata file was deleted from the source (newer file reported) before "
                                       "its last modification was mirrored; the destination keeps a stale version",
                                       "last written content", r)
-        if self.meth == 1:
+        if self.meth == 1 and self.flags[1]:
             # the newest metadata file of every channel stays in the source
             for g, ch in MDCH.items():
                 written = sorted(r for r in self.last if r.startswith(ch + os.sep + SUB) and r not in self.env_removed)
@@ -425,19 +477,39 @@ class Oracle:
 
 # ----------------------------------------------------------------------------- histories
 
-def run_history(impl, meth, evs, snapshots=True):
-    """returns (states, fsops per event, violations with event index)"""
-    impl.reset(meth)
-    orc = Oracle(impl, meth)
+def run_history(impl, meth, evs, snapshots=True, flags=(True, True)):
+    """returns (groups, states, violations): one implementation step per element of evs; groups[i] is the
+    list of model events it corresponds to (the start-up replay ("R",) expands into the creation events that
+    DigitalRFMirror.start() really dispatched)"""
+    impl.reset(meth, flags)
+    orc = Oracle(impl, meth, flags)
     impl.snap_cb = orc.snapshot if snapshots else None
-    states, ring_deleted = [], set()
+    groups, states, ring_deleted = [], [], set()
     for i, e in enumerate(evs):
         orc.idx = i
         if e[0] == "W":
             orc.wrote(e[1], e[2])
         if e[0] == "X":
             orc.env_removed.add(rel(tuple(e[1])))
-        exc = impl.apply(e)
+        if e[0] == "R":
+            exc, replayed = impl.replay_existing()
+            bad = [x for x in replayed if not isinstance(x, tuple)]
+            if bad:
+                orc.add("replay-foreign-file", "the start-up replay dispatched a file of no known kind", [], bad)
+            groups.append([("C", x) for x in replayed if isinstance(x, tuple)])
+            on_src = read_tree(impl.src)
+            # every existing file of a selected kind in a complete channel is replayed
+            for r in on_src:
+                t = impl.relmap.get(r)
+                if t is None or not selected(flags, t) or t in replayed:
+                    continue
+                chprop = (-1, 0, t[0]) if kind(t) == "rf" else (-2, 0, t[0]) if kind(t) == "md" else t
+                if rel(chprop) in on_src:
+                    orc.add("replay-misses-selected-file", "the start-up replay skipped an existing file of a selected kind",
+                            r, [list(x) if isinstance(x, tuple) else x for x in replayed])
+        else:
+            exc = impl.apply(e)
+            groups.append([e])
         st = canon_impl(impl, exc)
         st["fsops"] = impl_fsops(impl)
         for op in st["fsops"]:
@@ -448,10 +520,10 @@ def run_history(impl, meth, evs, snapshots=True):
         states.append(st)
     impl.snap_cb = None
     orc.final(ring_deleted)
-    return states, orc.viol
+    return groups, states, orc.viol
 
 
-def gen_history(rng, meth, n, reorder=True, causal_md=False):
+def gen_history(rng, meth, n, reorder=True, replay=True):
     """writes by a recorder, each followed -- immediately or later, once or twice -- by its event;
     events for vanished files; at the end every pending event is delivered"""
     evs, pending = [], []
@@ -516,6 +588,8 @@ def gen_history(rng, meth, n, reorder=True, causal_md=False):
                     pending.append(("D", p))
         elif r < 0.74:
             evs.append((rng.choice(("C", "M", "D")), rng.choice(all_paths())))     # stray / stale event
+        elif r < 0.78 and replay:
+            evs.append(("R",))                      # (re)start: existing files replayed as creation events
         elif pending:
             if reorder:
                 deliver(rng.randrange(len(pending)))
@@ -528,39 +602,48 @@ def gen_history(rng, meth, n, reorder=True, causal_md=False):
     return evs
 
 
-def check_histories(res, impl, meth, hists, tag):
-    results = []
-    for evs in hists:
-        results.append(run_history(impl, meth, evs))
-    outs = common.run_model("mirror", [enc_history(meth, impl.same_fs, evs) for evs in hists])
-    for evs, out, (states, viols) in zip(hists, outs, results):
+def check_histories(res, impl, meth, hists, tag, flags=(True, True)):
+    results = [run_history(impl, meth, evs, flags=flags) for evs in hists]
+    flat = [[e for g in groups for e in g] for groups, _s, _v in results]
+    outs = common.run_model("mirror", [enc_history(meth, impl.same_fs, f, flags) for f in flat])
+    ftag = "%s%s" % ("drf" if flags[0] else "", "dmd" if flags[1] else "")
+    for evs, fl, out, (groups, states, viols) in zip(hists, flat, outs, results):
         nontriv = any(st["fsops"] for st in states)
-        res.case((tag, meth, impl.same_fs, tuple(map(repr, evs))), nontrivial=nontriv)
-        res.count("%s-%s-%s" % (tag, METH[meth], "samefs" if impl.same_fs else "crossfs"))
-        res.count("events", len(evs))
+        res.case((tag, meth, impl.same_fs, flags, tuple(map(repr, evs))), nontrivial=nontriv)
+        res.count("%s-%s-%s-%s" % (tag, METH[meth], ftag, "samefs" if impl.same_fs else "crossfs"))
+        res.count("events", len(fl))
+        res.count("startup-replays", sum(1 for e in evs if e[0] == "R"))
         res.count("fs-operations-traced", sum(len(st["fsops"]) for st in states))
+        inp = {"meth": meth, "cross_fs": not impl.same_fs, "flags": list(flags), "events": [list(e) for e in evs]}
         try:
-            ms = parse_dump(out, len(evs))
+            ms = parse_dump(out, len(fl))
         except (StopIteration, RuntimeError):
             ms = None
         if ms is None:
-            res.disagree("mirror model output unparsable", [list(e) for e in evs], None, None)
+            res.disagree("mirror model output unparsable", inp, None, None)
         else:
-            for i, (m, st) in enumerate(zip(ms, states)):
+            k, last = 0, {"src": [], "dst": [], "ring": [], "err": 0}
+            for i, (g, st) in enumerate(zip(groups, states)):
+                steps = ms[k:k + len(g)]
+                k += len(g)
+                m = dict(steps[-1] if steps else last)
+                m["fsops"] = [op for x in steps for op in x["fsops"]]
+                last = {kk: m[kk] for kk in ("src", "dst", "ring", "err")}
                 if m != st:
-                    res.disagree("mirror model vs implementation (%s, %s) at event %d" % (
-                        METH[meth], "same fs" if impl.same_fs else "cross fs", i),
-                        {"meth": meth, "same_fs": impl.same_fs, "events": [list(e) for e in evs[:i + 1]]}, m, st)
+                    res.disagree("mirror model vs implementation (%s, include_drf=%s include_dmd=%s, %s) at event %d" % (
+                        METH[meth], flags[0], flags[1], "same fs" if impl.same_fs else "cross fs", i),
+                        dict(inp, events=[list(e) for e in evs[:i + 1]]), m, st)
                     break
         for i, v in viols:
             sig, title, exp, obs = v
-            res.violation(sig, title, {"meth": meth, "cross_fs": not impl.same_fs, "events": [list(e) for e in evs],
-                                       "failing_event": i}, exp, obs)
+            res.violation(sig, title, dict(inp, failing_event=i), exp, obs)
 
 
 # ----------------------------------------------------------------------------- a real recording end to end
 
-def real_recording(res, meth):
+def real_recording(res, meth, flags=(True, True)):
+    """a real recording (DigitalRFWriter + DigitalMetadataWriter) mirrored by the real start-up replay
+    (DigitalRFMirror.start() with the observer stubbed out), then every event again late and duplicated"""
     import numpy as np
     import digital_rf
     from watchdog import events
@@ -568,7 +651,7 @@ def real_recording(res, meth):
     src, dest = os.path.join(base, "src"), os.path.join(base, "dest")
     os.makedirs(src)
     os.makedirs(dest)
-    sps, spf = 100, 100        # 1 s files
+    sps = 100                  # 1 s files
     start = T0 * sps
     data = {}
     for ch in ("cha", "chb"):
@@ -582,63 +665,70 @@ def real_recording(res, meth):
         for j in range(3):
             mw.write(start + j * sps, {"v": j})
     before = read_tree(src)
+
+    def is_md(k):
+        return os.sep + "metadata" + os.sep in k or k.endswith("dmd_properties.h5")
+    want = {k: v for k, v in before.items() if (flags[1] if is_md(k) else flags[0])}
     cls = digital_rf.mirror.DigitalRFMirror
     orig = cls._init_observer
     cls._init_observer = lambda _s: None
     try:
-        m = cls(src, dest, method=METH[meth])
+        m = cls(src, dest, method=METH[meth], include_drf=flags[0], include_dmd=flags[1])
     finally:
         cls._init_observer = orig
+
+    class _NoObserver(object):
+        def start(self):
+            pass
+    m.observer = _NoObserver()
     import sys
     so, dn = sys.stdout, open(os.devnull, "w")
     sys.stdout = dn
     try:
-        # what start() does after starting the observer: replay existing files as creation events
-        from digital_rf import list_drf
-        paths = list(list_drf.ilsdrf(src, include_drf=False, include_dmd=False, include_drf_properties=True,
-                                     include_dmd_properties=True))
-        paths += list(list_drf.ilsdrf(src, include_drf=True, include_dmd=True, include_drf_properties=False,
-                                      include_dmd_properties=False))
-        for p in paths + paths[::-1]:                       # every event also late and duplicated
+        m.start()
+        for k in sorted(before, reverse=True):                  # every event also late and duplicated
             for hd in m.event_handlers:
-                hd.dispatch(events.FileCreatedEvent(p), match_time=False)
+                hd.dispatch(events.FileCreatedEvent(os.path.join(src, k)))
     finally:
         sys.stdout = so
         dn.close()
     after = read_tree(dest)
-    res.count("real-recording-" + METH[meth])
-    res.case(("real", meth), nontrivial=True)
-    inp = {"meth": meth, "real_recording": True}
-    if after != before:
-        missing = sorted(set(before) - set(after))
-        extra = sorted(set(after) - set(before))
-        diff = sorted(k for k in before if k in after and before[k] != after[k])
-        res.violation("real-recording-not-mirrored", "destination tree differs from the source recording",
-                      inp, "identical tree", {"missing": missing, "extra": extra, "different": diff})
+    res.count("real-recording-%s-%s%s" % (METH[meth], "drf" if flags[0] else "", "dmd" if flags[1] else ""))
+    res.case(("real", meth, flags), nontrivial=True)
+    inp = {"meth": meth, "flags": list(flags), "real_recording": True}
+    if after != want:
+        missing = sorted(set(want) - set(after))
+        extra = sorted(set(after) - set(want))
+        diff = sorted(k for k in want if k in after and want[k] != after[k])
+        res.violation("real-recording-not-mirrored", "destination tree differs from the selected kinds of the source recording",
+                      inp, "exactly the files of the selected kinds, identical", {"missing": missing, "extra": extra, "different": diff})
         return
-    rd = digital_rf.DigitalRFReader(dest)
+    rd = digital_rf.DigitalRFReader(dest) if flags[0] else None
     for ch, arr in data.items():
-        got = rd.read_vector_raw(start, len(arr), ch).reshape(-1)
-        if not (got == arr).all():
-            res.violation("real-recording-read-differs", "data read from the mirrored recording differs", inp, None, ch)
-        md = rd.read_metadata(start, start + 3 * sps, ch)
-        if sorted(md) != [start + j * sps for j in range(3)]:
-            res.violation("real-recording-metadata-differs", "metadata read from the mirrored recording differs", inp,
-                          [start + j * sps for j in range(3)], sorted(md))
+        if flags[0]:
+            got = rd.read_vector_raw(start, len(arr), ch).reshape(-1)
+            if not (got == arr).all():
+                res.violation("real-recording-read-differs", "data read from the mirrored recording differs", inp, None, ch)
+        if flags[1]:
+            mr = digital_rf.DigitalMetadataReader(os.path.join(dest, ch, "metadata"))
+            md = mr.read(start, start + 3 * sps)
+            if sorted(md) != [start + j * sps for j in range(3)]:
+                res.violation("real-recording-metadata-differs", "metadata read from the mirrored recording differs", inp,
+                              [start + j * sps for j in range(3)], sorted(md))
     left = read_tree(src)
+    expect_left = dict(before)
     if meth == 1:
-        rf_left = [k for k in left if "rf@" in k]
-        md_left = sorted(k for k in left if "metadata@" in k)
-        if rf_left:
-            res.violation("move-left-source", "move mode: data files left in the source", inp, [], rf_left)
-        for ch in data:
-            newest = sorted(k for k in before if k.startswith(os.path.join(ch, "metadata")) and "metadata@" in k)[-1]
-            if newest not in left:
-                res.violation("newest-metadata-removed", "move mode: newest metadata file removed from the source", inp, newest, md_left)
-        if [k for k in before if k.endswith("_properties.h5") and left.get(k) != before[k]]:
-            res.violation("source-changed", "properties file changed or removed in the source", inp, None, None)
-    elif left != before:
-        res.violation("source-changed", "copy/link changed the source tree", inp, None, None)
+        if flags[0]:
+            expect_left = {k: v for k, v in expect_left.items() if "rf@" not in k}
+        if flags[1]:
+            for ch in data:
+                mds = sorted(k for k in before if k.startswith(os.path.join(ch, "metadata")) and "metadata@" in k)
+                for k in mds[:-1]:
+                    expect_left.pop(k)
+    if left != expect_left:
+        res.violation("source-changed", "the source tree after mirroring is not what the method allows (move: data files moved, "
+                      "older metadata files removed, the newest metadata file and the properties stay; copy/link: untouched)",
+                      inp, sorted(expect_left), sorted(left))
 
 
 # ----------------------------------------------------------------------------- entry points
@@ -650,11 +740,31 @@ WITNESS_STALE = [("W", (-2, 0, 1), 1), ("C", (-2, 0, 1)),
                  ("M", (1, key_of(0), 0))]
 
 
+_SHM = []     # scratch directories outside common.scratch_root() (tmpfs); the check body runs in a child that
+              # leaves through os._exit, so they are removed explicitly
+
+
 def run(res):
+    try:
+        _run(res)
+    finally:
+        global _POOL
+        try:
+            if globals().get("_POOL") is not None:
+                _POOL.terminate()
+                _POOL = None
+        except Exception:  # noqa
+            pass
+        for d in _SHM:
+            shutil.rmtree(d, True)
+
+
+def _run(res):
     rng = res.rng
     quick = res.tier == "quick"
-    res.rule = ("history = a recorder writing RF, metadata and properties files (metadata rewritten in place) and the "
-                "resulting created/modified/moved events delivered immediately, late, twice or out of order, plus events for "
+    res.rule = ("for every combination of include_drf / include_dmd (at least one): history = a recorder writing RF, metadata and properties files (metadata rewritten in place) and the "
+                "resulting created/modified/moved events delivered immediately, late, twice or out of order, the real start-up replay "
+                "of existing files (DigitalRFMirror.start() with the observer stubbed out), plus events for "
                 "vanished or foreign files, for copy / move / link with source and destination on the same and on "
                 "different file systems; non-trivial = distinct history in which the mirror performed at least one "
                 "file-system operation; after every event source tree, destination tree (tmp. names included), ring-buffer "
@@ -666,21 +776,26 @@ def run(res):
         impls.append(cross)
     else:
         res.notes.append("no second file system available: cross-fs variant (copy+unlink move, link fallback) not exercised")
-    nh = (50 if quick else 700)
+    nh = (18 if quick else 240)
     for impl in impls:
         check_histories(res, impl, 1, [WITNESS_STALE], "witness")
+        for flags in FLAGS:
+            for meth in (0, 1, 2):
+                hists = [gen_history(rng, meth, 40, reorder=(i % 4 != 0)) for i in range(nh)]
+                # a recording that exists before the mirror starts: nothing is reported, everything is replayed
+                pre = [("W", pp, 1) for pp in ((-1, 0, 0), (-1, 0, 2), (-2, 0, 1), (-2, 0, 3))]
+                pre += [e for e in gen_history(rng, meth, 25, replay=False) if e[0] == "W" and e[1][0] >= 0]
+                hists.append(pre + [("R",)])
+                hists.append(pre + [("R",), ("R",)])
+                check_histories(res, impl, meth, hists, "random", flags)
+    for flags in FLAGS:
         for meth in (0, 1, 2):
-            hists = [gen_history(rng, meth, 40, reorder=(i % 4 != 0)) for i in range(nh)]
-            # move mode: per-channel causal delivery of metadata events is the guard of the partial theorem;
-            # histories violating it are generated too and must show exactly the recorded finding
-            check_histories(res, impl, meth, hists, "random")
-    for meth in (0, 1, 2):
-        real_recording(res, meth)
+            real_recording(res, meth, flags)
     res.sample({"method": "move", "events": [list(e) for e in WITNESS_STALE],
                 "note": "witness of C17_finalized_refuted (stale metadata after reordered events)"})
     # guard the extraction with vm_compute
-    hs = [gen_history(rng, m, 12) for m in (0, 1, 2)]
-    encs = [enc_history(m, True, h) for m, h in zip((0, 1, 2), hs)]
+    hs = [gen_history(rng, m, 12, replay=False) for m in (0, 1, 2)]
+    encs = [enc_history(m, True, h, fl) for m, h, fl in zip((0, 1, 2), hs, FLAGS)]
     exprs = ["(run 1 [%s])" % "; ".join("(%d)" % x for x in e[1:]) for e in encs]
     vm = common.run_model_vm("From DRF Require Import Extract.MirrorRunner.", exprs)
     ex = common.run_model("mirror", encs)
@@ -699,14 +814,16 @@ def run(res):
 
 def replay(res, rp):
     i = rp["input"]
+    flags = tuple(i.get("flags", (True, True)))
     if i.get("real_recording"):
-        real_recording(res, i["meth"])
+        real_recording(res, i["meth"], flags)
         for v in res.violations:
             print("VIOLATION", v["signature"], v["observed"])
         return 1 if res.violations else 0
     impl = Impl(bool(i.get("cross_fs")))
     evs = [tuple(tuple(x) if isinstance(x, list) else x for x in e) for e in i["events"]]
-    states, viols = run_history(impl, i["meth"], evs)
+    groups, states, viols = run_history(impl, i["meth"], evs, flags=flags)
+    print("method", METH[i["meth"]], "include_drf", flags[0], "include_dmd", flags[1])
     for k, (e, st) in enumerate(zip(evs, states)):
         print("event", k, e, "->", st["fsops"])
     for k, v in viols:
